@@ -116,8 +116,13 @@ func (c14) Gen(rng *simrt.Rand, seed uint64, tier string) *Case {
 	c := &Case{X: map[string]any{}}
 	part := rng.Bool(0.8)
 	pcol := ""
-	if part && rng.Bool(0.25) {
-		pcol = "o.p"
+	if part {
+		switch r := rng.Float64(); {
+		case r < 0.2:
+			pcol = "o.p"
+		case r < 0.45:
+			pcol = "p, q" // composite key
+		}
 	}
 	c.X["pcol"] = pcol
 	fns := []string{"lag", "lag", "latest", "had_changed", "changed_col", "acc_sum", "acc_count", "acc_avg", "acc_min", "acc_max", "diff", "range"}
@@ -201,12 +206,19 @@ func (c14) Gen(rng *simrt.Rand, seed uint64, tier string) *Case {
 	partVals := []any{"a", "b", "a|b", nil, 1, "1", "", 2.5}
 	rng.Intn(1)
 	var parts []any
+	var partQ []any // second key component (composite keys): pairs share components with each other
 	used := map[string]bool{}
 	for len(parts) < nparts {
 		v := partVals[rng.Intn(len(partVals))]
-		if k := canon(v); !used[k] {
+		var q any
+		if pcol == "p, q" {
+			v = partVals[rng.Intn(3)] // few first components, so that pairs differ in the second only
+			q = []any{"x", "y", "x|", nil}[rng.Intn(4)]
+		}
+		if k := canon([]any{v, q}); !used[k] {
 			used[k] = true
 			parts = append(parts, v)
+			partQ = append(partQ, q)
 		}
 	}
 	maxRows := 30
@@ -221,7 +233,9 @@ func (c14) Gen(rng *simrt.Rand, seed uint64, tier string) *Case {
 		pi := rng.Intn(len(parts))
 		owner := pi % nclients
 		row := Row{"id": fmt.Sprintf("r%03d", i), "w": rng.Intn(5)}
-		if pcol != "" {
+		if pcol == "p, q" {
+			row["p"], row["q"] = parts[pi], partQ[pi]
+		} else if pcol != "" {
 			// nested partition key; the top-level column of the same bare name is a decoy
 			// (o.p is always present, possibly NULL: what a row without o.p but with a top-level p
 			// belongs to is not something the property defines)
@@ -252,6 +266,10 @@ func (c14) Gen(rng *simrt.Rand, seed uint64, tier string) *Case {
 		maxParts = nparts + 2
 	}
 	perf := &PerfSpec{ResultChan: 8, Workers: 1 + rng.Intn(2), PoolSize: 2, Strategy: "block", BlockTimeout: int64(time.Hour), DataChan: 1 + rng.Intn(6)}
+	if rng.Bool(0.3) {
+		// the input buffer grows (rows migrate to a larger channel) while several producers emit
+		perf = &PerfSpec{ResultChan: 8, Workers: 1 + rng.Intn(2), PoolSize: 2, Strategy: "expand", DataChan: 1 + rng.Intn(3), Growth: []float64{1.5, 2}[rng.Intn(2)], MinInc: 1 + rng.Intn(2), Threshold: []float64{0.8, 1.0}[rng.Intn(2)], MaxBuffer: 4*n + 16}
+	}
 	c.Insts = []InstSpec{
 		{SQL: sql, Perf: perf, Sinks: []SinkSpec{{Mode: "sync"}}, MaxPartitions: maxParts},
 		{SQL: sql, Perf: &PerfSpec{ResultChan: 64, Workers: 1, PoolSize: 2}, Sinks: []SinkSpec{{Mode: "sync"}}, MaxPartitions: maxParts},
@@ -260,6 +278,13 @@ func (c14) Gen(rng *simrt.Rand, seed uint64, tier string) *Case {
 	// partitions, which the per-partition model tolerates
 	c.Clients = append(c.Clients, opsEmit...)
 	c.Clients = append(c.Clients, opsSync...)
+	if rng.Bool(0.12) {
+		// Stop while rows flow: whatever is still delivered must be what the definition gives over
+		// the rows processed before it (a prefix of each producer's rows)
+		d := int64(time.Duration(rng.Intn(3000)) * time.Microsecond)
+		c.Clients = append(c.Clients, []Op{{K: "sleep", D: d}, {K: "stop", I: 0}, {K: "stop", I: 1}})
+		c.X["stop_mid"] = true
+	}
 	c.Policy = genPolicy(rng, []time.Duration{time.Microsecond, time.Millisecond}, false)
 	c.Settle = int64(time.Second)
 	c.MaxSteps = 300000
@@ -532,7 +557,7 @@ func (c14) Run(e *Env) {
 	syncHas := map[string]bool{}
 	for _, rec := range e.Ops {
 		if rec.Op.K == "emitsync" {
-			if rec.Err != "" {
+			if rec.Err != "" && !e.C.xBool("stop_mid") {
 				e.Violate("C14/emitsync-error", "", "EmitSync(%s): %s", rec.Op.Tag, rec.Err)
 			}
 			syncHas[rec.Op.Tag] = rec.Out != nil
@@ -551,9 +576,19 @@ func (c14) Run(e *Env) {
 			o, _ := row["o"].(map[string]any)
 			return canon(o["p"])
 		}
+		if e.C.xStr("pcol") == "p, q" {
+			return canon([]any{row["p"], row["q"]})
+		}
 		return canon(row["p"])
 	}
-	nEmitClients := len(e.C.Clients) / 2
+	stopMid := e.C.xBool("stop_mid")
+	nEmitClients := len(e.C.Clients) / 2 // (a trailing stop client does not change the integer half)
+	if stopMid {
+		nEmitClients = (len(e.C.Clients) - 1) / 2
+		e.Probe("stop_while_rows_flow")
+	}
+	ownerOf := map[string]int{}
+	produced := map[string]bool{} // path/id -> result seen, for rows expected to produce one (stop variant)
 	perPartRows := map[string][]Row{}
 	var partOrder []string
 	for ci := 0; ci < nEmitClients; ci++ {
@@ -562,6 +597,7 @@ func (c14) Run(e *Env) {
 				p := partOf(op.Row)
 				if _, ok := perPartRows[p]; !ok {
 					partOrder = append(partOrder, p)
+					ownerOf[p] = ci
 				}
 				perPartRows[p] = append(perPartRows[p], op.Row)
 			}
@@ -635,6 +671,12 @@ func (c14) Run(e *Env) {
 				if path == "emitsync" {
 					has = syncHas[id]
 				}
+				if stopMid && pass {
+					produced[path+"/"+id] = has
+					if !has {
+						continue // not processed any more (or its result not delivered) because of Stop
+					}
+				}
 				if has != pass {
 					e.Violate("C14/row-presence", path, "partition %s row %s (v=%s): result produced=%v, expected=%v (WHERE kind %q)", p, id, canon(v), has, pass, whereKind)
 					continue
@@ -677,6 +719,31 @@ func (c14) Run(e *Env) {
 			}
 		}
 	}
+	if stopMid {
+		// the rows of one producer that still produced a result are a prefix of its rows
+		for ci := 0; ci < nEmitClients; ci++ {
+			for _, path := range []string{"emit", "emitsync"} {
+				gap := ""
+				for _, op := range e.C.Clients[ci] {
+					if op.K != "emit" {
+						continue
+					}
+					has, expected := produced[path+"/"+rowID(op.Row)]
+					if !expected {
+						continue
+					}
+					if !has && gap == "" {
+						gap = rowID(op.Row)
+					}
+					if has && gap != "" {
+						e.Violate("C14/row-after-gap", path, "producer %d: row %s produced a result although its earlier row %s did not (Stop in between): the rows that count are no prefix of what was emitted", ci, rowID(op.Row), gap)
+						break
+					}
+				}
+			}
+		}
+	}
+	_ = ownerOf
 	if len(partOrder) > 1 {
 		e.Probe("multi_partition")
 	}
